@@ -5,7 +5,7 @@
    operations (arbitrary inputs, including verdicts, drawn challenges, payment outcomes) from the
    empty store for the reward theorem. *)
 From Coq Require Import ZArith NArith List Bool.
-From JK Require Import Base.AList Model.StorageFiles Proofs.StorageFilesProofs.
+From JK Require Import Base.Dec Base.AList Model.StorageFiles Proofs.StorageFilesProofs Proofs.RewardBridge.
 Import ListNotations.
 Open Scope Z_scope.
 
@@ -88,3 +88,132 @@ Example C01_demo_refusals :
   map (fun o => r_success (msg_step (run init (firstn 2 c01_demo)) o)) (firstn 2 (skipn 2 c01_demo)) = [false; false] /\
   run init (firstn 4 c01_demo) = run init (firstn 2 c01_demo).
 Proof. vm_compute. split; reflexivity. Qed.
+
+(* ---------- C01 composed with C03: who is PAID ----------
+   Model/StorageFiles.v models who the reward block credits, Model/Rewards.v (property C03) the size
+   tracker and the payout of the same Go function (keeper/rewards.go).  Proofs/RewardBridge.v reads the
+   input of the Rewards model off a StorageFiles state ([project]: per file of the primary index its
+   Start / ProofInterval / FileSize, the prover strings of its listed keys, the FileProof records stored
+   under those keys) and proves, by simulation of manageProof / ManageRewards over the file list and the
+   copied prover list, on every state satisfying the C17 invariant:
+   the two walks panic together, and otherwise the tracker Rewards builds is the replay
+   (sizeTracker[prover] += FileSize, oldest first) of the credit list StorageFiles builds. *)
+Theorem C01_reward_models_walk_alike :
+  forall s h bu, Inv s ->
+  match manage_files h (s, []) (map snd (files1 s)) with
+  | Some (s', cr) => exists a, R.manage_all h (project s) bu = R.Ok a /\ R.as_tr a = replay (size_at s) cr /\
+                       ((forall k f, get_file s k = Some f -> 0 <= f_size f) ->
+                        credit_total (size_at s) cr <= slot_total (map snd (files1 s)))
+  | None => R.manage_all h (project s) bu = R.Panic
+  end.
+Proof. exact bridge_tracker. Qed.
+Print Assumptions C01_reward_models_walk_alike.
+
+(* hence: every prover string with a non-zero tracker entry in the Rewards model is in StorageFiles' credit
+   list; and when every stored file has a positive size and the listed total fits int64 (the hypothesis of
+   C03_block_payout_hypotheses_hold on the denominator) the provers with a positive entry are exactly the
+   credited ones *)
+Theorem C01_counted_provers_are_the_credited_ones :
+  forall s h bu s' cr a, Inv s ->
+  manage_files h (s, []) (map snd (files1 s)) = Some (s', cr) -> R.manage_all h (project s) bu = R.Ok a ->
+  R.as_tr a = replay (size_at s) cr /\
+  (forall p, aval N.eqb (R.as_tr a) p <> 0 -> In p (map fst cr)) /\
+  ((forall k f, get_file s k = Some f -> 0 < f_size f) -> RP.total_size (project s) <= int64_max ->
+   forall p, In p (map fst cr) <-> 0 < aval N.eqb (R.as_tr a) p).
+Proof. exact bridge_counted_credited. Qed.
+Print Assumptions C01_counted_provers_are_the_credited_ones.
+
+(* on the states histories reach, stored sizes are positive (PostFile refuses the others, nobody else
+   changes a size), so only the int64 bound on the listed total remains *)
+Theorem C01_stored_file_sizes_positive :
+  forall ops k f, get_file (run init ops) k = Some f -> 0 < f_size f.
+Proof. exact StorageFilesSizes.sp_history. Qed.
+Print Assumptions C01_stored_file_sizes_positive.
+
+Theorem C01_counted_provers_are_the_credited_ones_on_histories :
+  forall ops h bu s' cr a, let s := run init ops in
+  manage_files h (s, []) (map snd (files1 s)) = Some (s', cr) -> R.manage_all h (project s) bu = R.Ok a ->
+  RP.total_size (project s) <= int64_max ->
+  forall p, In p (map fst cr) <-> 0 < aval N.eqb (R.as_tr a) p.
+Proof. exact bridge_counted_credited_history. Qed.
+Print Assumptions C01_counted_provers_are_the_credited_ones_on_histories.
+
+(* the well-formedness C03 assumes of every file (RP.wf_file: "invariant of C17") IS the C17 invariant read
+   through the projection, up to the non-zero proof window, which [Inv] does not contain (PostFile copies
+   the ProofWindow parameter unchecked; both models panic on a listed prover of a file with window 0) *)
+Theorem C01_projection_meets_the_C03_assumption :
+  forall s, Inv s -> (forall k f, get_file s k = Some f -> f_interval f <> 0) -> Forall RP.wf_file (project s).
+Proof. exact project_wf. Qed.
+Print Assumptions C01_projection_meets_the_C03_assumption.
+
+(* so with non-zero windows neither walk panics and C03's closed form (C03_block_counts_exactly_once) gives
+   the tracker that StorageFiles' credit list replays to *)
+Theorem C01_credit_list_replays_to_the_C03_tracker :
+  forall s h bu, Inv s -> (forall k f, get_file s k = Some f -> f_interval f <> 0) -> RP.bu_in64 bu ->
+  exists s' cr a,
+    manage_files h (s, []) (map snd (files1 s)) = Some (s', cr) /\
+    R.manage_all h (project s) bu = R.Ok a /\ R.as_tr a = replay (size_at s) cr /\
+    (forall p, aval N.eqb (replay (size_at s) cr) p = wrap64 (RP.credited h (project s) p)).
+Proof. exact bridge_closed_form. Qed.
+Print Assumptions C01_credit_list_replays_to_the_C03_tracker.
+
+(* rewardAllProviders (Rewards.reward_all) raises a balance only for an account denoted by a prover string
+   with a positive tracker entry — for every tracker, denominator, coin list and bank *)
+Theorem C01_payout_raises_only_counted_accounts :
+  forall macct accts total tr coins b b' x d,
+  R.reward_all macct accts total tr coins b = R.Ok b' -> R.bal b x d < R.bal b' x d ->
+  exists p, 0 < aval N.eqb tr p /\ aget N.eqb accts p = Some x.
+Proof. exact reward_all_increase. Qed.
+Print Assumptions C01_payout_raises_only_counted_accounts.
+
+(* No account is ever paid storage rewards at a reward block for a file it has never validly proven.
+   For every history [ops] from the empty store, every height and CheckWindow, every module account, every
+   table [accts] from prover strings to the accounts they denote, every released coin list, every burn
+   counters and every bank: if RunRewardBlock as computed by the Rewards model on the projection of the
+   state reached by [ops] ends with a higher balance (any denomination) for an account x other than the
+   storage module account, then x is denoted by a prover string p that the reward block credits for a file
+   fk, p is listed on fk, and an earlier step of [ops] is a PostProof by p on fk that was answered Success
+   and whose proof verified. *)
+Theorem C01_paid_only_after_valid_proof :
+  forall ops macct accts cw h coins bu bank st' x d,
+  let s := run init ops in
+  R.run_reward_block macct accts cw h coins {| R.b_files := project s; R.b_burn := bu; R.b_bank := bank |} = R.Ok st' ->
+  x <> macct -> R.bal bank x d < R.bal (R.b_bank st') x d ->
+  exists p fk, aget N.eqb accts p = Some x /\
+    In (p, fk) (credited s (RewardBlock h cw)) /\ Listed s p fk /\
+    exists ops1 o ops2, ops = ops1 ++ o :: ops2 /\ accepted_valid (run init ops1) o (p, fk).
+Proof. exact paid_only_after_valid_proof. Qed.
+Print Assumptions C01_paid_only_after_valid_proof.
+
+(* non-vacuity: after c01_demo the projection is one file of 4096 bytes with prover 10 and his record;
+   a reward block at height 10 releasing 1000 units of denomination 1 pays account 110 (denoted by prover
+   string 10) all of it and nothing to 120 (string 20, whose two submissions were refused); the hypotheses
+   of C01_paid_only_after_valid_proof hold for x = 110 *)
+Definition c01_pay :=
+  R.run_reward_block 900%N [(10, 110); (20, 120)]%N 10 10 [(1%N, 1000)]
+    {| R.b_files := project (run init c01_demo); R.b_burn := burns (run init c01_demo); R.b_bank := [] |}.
+
+Example C01_demo_projection :
+  project (run init c01_demo) =
+    [ {| R.f_start := 5; R.f_interval := 10; R.f_size := 4096; R.f_proofs := [10%N];
+         R.f_recs := [(10%N, {| R.pr_prover := 10%N; R.pr_last := 6 |})]; R.f_live := true |} ].
+Proof. vm_compute. reflexivity. Qed.
+
+Example C01_demo_paid :
+  match c01_pay with
+  | R.Ok st => (R.bal (R.b_bank st) 110 1, R.bal (R.b_bank st) 120 1, R.bal (R.b_bank st) 900 1)%N
+  | R.Panic => (0, 0, 0)
+  end = (1000, 0, 0).
+Proof. vm_compute. reflexivity. Qed.
+
+Example C01_demo_paid_hypotheses :
+  exists st', c01_pay = R.Ok st' /\ 110%N <> 900%N /\ R.bal [] 110%N 1%N < R.bal (R.b_bank st') 110%N 1%N.
+Proof. eexists. split; [vm_compute; reflexivity|]. split; [discriminate | vm_compute; reflexivity]. Qed.
+
+Example C01_demo_tracker_is_replay :
+  match manage_files 10 (run init c01_demo, []) (map snd (files1 (run init c01_demo))),
+        R.manage_all 10 (project (run init c01_demo)) (burns (run init c01_demo)) with
+  | Some (_, cr), R.Ok a => (cr, R.as_tr a, replay (size_at (run init c01_demo)) cr, R.as_total a)
+  | _, _ => ([], [], [], 0)
+  end = ([(10%N, (100%N, 1%N, 5))], [(10%N, 4096)], [(10%N, 4096)], 4096).
+Proof. vm_compute. reflexivity. Qed.
